@@ -70,6 +70,9 @@ func (w *l1World) reimport() *core.Violation {
 	if err := w.n.MM.Modules[ophosttypes.ModuleName].(module.HasGenesisBasics).ValidateGenesis(w.enc.Codec, w.enc.TxConfig, st[ophosttypes.ModuleName]); err != nil {
 		return w.fail(mismatch{"genesis.export-invalid", "l1-exported-genesis-invalid", own, "the exported ophost genesis does not validate: " + err.Error()})
 	}
+	if v := w.hostileGenesis(st); v != nil {
+		return v
+	}
 	db2 := dbm.NewMemDB()
 	var n2 *node.L1
 	func() {
@@ -161,3 +164,48 @@ func (w *l2World) reimport() *core.Violation {
 
 var _ = authtypes.ModuleName
 var _ = banktypes.ModuleName
+
+// hostileGenesis: an operator restarts the chain from an exported genesis that was edited on the way (a
+// bridge whose finalization period is zero or negative).  Genesis import is one of the ways the chain
+// accepts a bridge, so the import must refuse it exactly as MsgCreateBridge does.
+func (w *l1World) hostileGenesis(st map[string]json.RawMessage) *core.Violation {
+	if !w.r.Chance(1, 4) {
+		return nil
+	}
+	var g map[string]interface{}
+	if err := json.Unmarshal(st[ophosttypes.ModuleName], &g); err != nil {
+		return nil
+	}
+	bridges, _ := g["bridges"].([]interface{})
+	if len(bridges) == 0 {
+		return nil
+	}
+	b, _ := bridges[w.r.Intn(len(bridges))].(map[string]interface{})
+	cfg, _ := b["bridge_config"].(map[string]interface{})
+	if cfg == nil {
+		return nil
+	}
+	period := []string{"0s", "-0.000000001s", "-3600s"}[w.r.Intn(3)]
+	cfg["finalization_period"] = period
+	bz, err := json.Marshal(g)
+	if err != nil {
+		return nil
+	}
+	st2 := map[string]json.RawMessage{}
+	for k, v := range st {
+		st2[k] = v
+	}
+	st2[ophosttypes.ModuleName] = bz
+	w.r.Fault("restart-from-edited-genesis.hostile-period")
+	accepted := false
+	func() {
+		defer func() { _ = recover() }()
+		_ = node.NewL1(dbm.NewMemDB(), &node.L1Genesis{Time: w.now, AppState: st2, InitialHeight: w.n.Height() + 1})
+		accepted = true
+	}()
+	if accepted {
+		return w.fail(mismatch{"genesis.hostile-period-accepted", "genesis-nonpositive-period", []string{"C05", "C16"}, "InitChain accepted a genesis in which a bridge has finalization period " + period})
+	}
+	w.r.Probe("genesis.hostile-period-refused")
+	return nil
+}
